@@ -13,8 +13,9 @@ def c05(tier):
         runs.append(H("c05_barriers", "asan", 20, "4,4,4,4", timeout_per_case=60))
     else:
         for t in TOPOS_THOROUGH:
-            runs.append(H("c05_barriers", "plain", 120, t, timeout_per_case=40))
-            runs.append(H("c05_barriers", "asan", 30, t, timeout_per_case=90))
+            # phases capped: 10000-phase cases with 16 spinning threads take minutes each on a shared machine
+            runs.append(H("c05_barriers", "plain", 100, t, timeout_per_case=60, params=dict(maxphases=1500)))
+            runs.append(H("c05_barriers", "asan", 30, t, timeout_per_case=90, params=dict(maxphases=1500)))
         for cpus in (2, 4):
             runs.append(H("c05_barriers", "plain", 80, "12,12,8", cpus=cpus, timeout_per_case=120,
                           params=dict(maxphases=200, oversub=1)))
